@@ -722,6 +722,12 @@ func (e *PPA) exec(fr *Frame, b *ssa.BasicBlock, i int, st *State, k cont) {
 				ev.Base = e.Resolve(st, RV{fr, fa.X})
 				ev.Field = fieldOf(fa)
 			}
+			if ia, ok := in.Addr.(*ssa.IndexAddr); ok {
+				// s[k] = v with k known on this path
+				if k, okc := e.intVal(st, e.Resolve(st, RV{fr, ia.Index}), 0); okc {
+					ev.Note = fmt.Sprintf("idx:%d", k)
+				}
+			}
 			ev.Label = lbl
 			e.emit(st, ev)
 		case *ssa.MapUpdate:
